@@ -163,6 +163,14 @@ PROPS.update({
         kani=dict(quick=['mask_iupac', 'mask_dna', 'complement_masked_dna', 'complement_masked_iupac', 'codec_contract_masked_dna', 'codec_contract_masked_iupac'], profiles=['debug', 'release'], quick_profiles=['debug']),
         standin=True,
     ),
+    'C14': dict(
+        level='proof',
+        level_text='code half: Verus proves Standard::try_to_amino (length check, FIRST table row whose pattern contains the codon via the verified `contains`, InvalidCodon / AmbiguousTranslation otherwise), initialise_amino_to_iupac (inverse map = unique-row relation, same invariant as C15) and try_to_codon; data half: the 29 table rows are copied mechanically from the source text on every run (rule R15) and Verus discharges BY EVALUATION (assert by(compute)) that for all 15^3 gap-free codons first-match translation is sound and complete against NCBI table 1 (every concrete DNA codon inside the codon codes for the returned amino acid; no row matches only if they disagree) and that for all 21 amino symbols a unique row is an exact pattern (all and only its codons, translating back) while several rows mean no exact single pattern exists; composite lemmas join the halves (bit-level contains = mask-level match)',
+        level_note=B_NOTE + '; additionally ASSUMES R15 (each iupac!("XYZ") literal denotes the symbols X,Y,Z - property C16, not claimed - and Amino::V displays as V / X as *: layer L, C05) and R16 (a lazily initialised static holds what its initialiser returns: std OnceLock); both are cross-checked by an EXHAUSTIVE native enumeration of the finite domain (16^3 codons, 21 amino symbols) on the real statics, labelled bounded stand-in',
+        technique='deductive verification (Verus) of the lookup code + table data extracted mechanically and decided by evaluation inside the verifier (by(compute))',
+        verus=[dict(name='c14', mode='T', roots=['std.code', 'std.reverse', 'std.data_fwd', 'std.data_rev', 'std.forward_lemma', 'std.reverse_lemma', 'iupac.contains'])],
+        standin=True,
+    ),
     'C15': dict(
         level='proof',
         level_text='Verus proves CodonTable::from_map, try_to_amino and try_to_codon generically in both codecs against a HashMap stand-in whose iteration yields every entry exactly once in an UNSPECIFIED order: the loop invariant is over the set of entries seen so far, so every iteration order is covered at once; postcondition inverse_ok: the inverse table holds Some(codon) exactly for amino acids with a unique preimage (same content), None exactly for two or more, and no entry for none; lookups translate a key codon presented as any slice (key view = bit content) and report InvalidCodon / AmbiguousCodon / InvalidAmino exactly as the property states',
@@ -182,7 +190,6 @@ PROPS.update({
 })
 
 NOT_APPLICABLE = {
-    'C14': 'deciding facts are table data built at first use in OnceLock statics from proc-macro literals and a std HashMap; no contract within reach of Verus (no proc-macro expansion, no OnceLock/HashMap specs) or Kani (bitvec cost) decides soundness/completeness against the genetic code (DESIGN.md section 6)',
     'C16': 'quantifies over programs (each literal is a separate macro expansion); the deciding code is proc-macro code over syn token trees: Verus has no specs for it, Kani ICEs on it; per-literal checks are executions, not deductions (DESIGN.md section 6)',
     'C18': 'no bio-seq function text exists (two cfg_attr derives); behaviour is bitvec serde + bincode/serde_json, external generic visitor code outside both verifiers (DESIGN.md section 6)',
 }
